@@ -546,6 +546,18 @@ def azimuthal(rep, ix):
             continue
         rng = lp[0][3]
         lo, st = rng.lo.real_const(), rng.step.real_const()
+        par_guard = None
+        if st == 1 and lo == 1 and same_value(rng.hi, nord):
+            # one loop over all rows with the parity decided inside: `if i % 2 == 1: <cos row> else: <sin row>`
+            par_guard = _parity_of_branch(f.node, lineno, row.single_atom())
+        if par_guard is not None:
+            par = par_guard
+            got = _parity_simplify(val_, row.single_atom(), par)
+            want = Rat.atom(Fn("cos", ((q + 1) * theta,))) if par == 1 else Rat.atom(Fn("sin", (q * theta,)))
+            seen["cos" if par == 1 else "sin"] = True
+            check_equal(rep, "A7.azimuthal", f.fq + (": odd row i = cos((i+1)/2 theta)" if par else ": even row i = sin(i/2 theta)"), got, want, where,
+                        what="azimuthal function")
+            continue
         if st != 2 or lo not in (1, 2) or not same_value(rng.hi, nord):
             rep.violation("A7.azimuthal", f.fq + ": rows of `%s`" % txt[:50], "loop range(%s, %s, %s) does not run over the odd (from 1) or "
                           "the even (from 2) rows below nord" % (nf(rng.lo), nf(rng.hi), nf(rng.step)), where)
@@ -562,6 +574,32 @@ def azimuthal(rep, ix):
     al = [a for a in I.alloc_log if a[0] == f.fq]
     rep.check(len(al) == 1 and same_value(al[0][2][0] if al[0][2] else None, (1 + nord, npp)), "A7.azimuthal", f.fq + ": table allocated as zeros((1 + nord, npp))",
               "allocation %s" % ([nf(x) for x in al[0][2]] if al else None), f.where())
+
+
+def _parity_of_branch(fnode, lineno, loopsym):
+    """1 / 0 / None: the store at `lineno` sits in the branch of `if v % 2 == 1` / `if v % 2 == 0` / `if v % 2` (v the loop
+    variable of the enclosing for) that is taken for odd / even v"""
+    store = next((n for n in ast.walk(fnode) if isinstance(n, ast.Assign) and n.lineno == lineno), None)
+    if store is None:
+        return None
+    for loop in ast.walk(fnode):
+        if not (isinstance(loop, ast.For) and isinstance(loop.target, ast.Name) and any(n is store for n in ast.walk(loop))):
+            continue
+        v = loop.target.id
+        for iff in ast.walk(loop):
+            if not isinstance(iff, ast.If):
+                continue
+            in_body = any(n is store for b in iff.body for n in ast.walk(b))
+            in_else = any(n is store for b in iff.orelse for n in ast.walk(b))
+            if not (in_body or in_else):
+                continue
+            t = norm_text(iff.test).replace(" ", "")
+            odd_when_true = {"%s%%2==1" % v: True, "%s%%2!=0" % v: True, "%s%%2" % v: True, "%s&1" % v: True,
+                             "%s%%2==0" % v: False, "%s%%2!=1" % v: False, "not%s%%2" % v: False}.get(t)
+            if odd_when_true is None:
+                return None
+            return 1 if (odd_when_true == in_body) else 0
+    return None
 
 
 # ----------------------------------------------------------------------------------------------------- A8
